@@ -443,6 +443,16 @@ HOST_POOL = [
     ("bad_comment", "type A = 1 /* never closed\nprc[a] : A = close self\n", "async", True),
     ("bad_char", "prc[a] : 1 = close self\n@\nprc[b] : 1 = close self\n", "async", True),
     ("untyped_stuck", "prc[a] : 1 = print hi; wait b; close self\nprc[b] : 1 -* 1 = <x,y> <- recv self; close self\n", "async", False),
+    # families that re-use the same type / function / process names with different meanings and different verdicts
+    ("eq_ok", "type A = +{a : 1}\ntype B = +{a : 1}\nlet f(x : A) : B = fwd self x\nprc[p] : B = y : 1 <- new close self; z : A <- new self.a<y>; f(z)\nprc[m] : 1 = case p ( a<c> => wait c; print eq_ok; close self )\n", "async", True),
+    ("eq_bad", "type A = +{a : 1}\ntype B = +{b : 1}\nlet f(x : A) : B = fwd self x\nprc[p] : B = y : 1 <- new close self; z : A <- new self.a<y>; f(z)\nprc[m] : 1 = case p ( b<c> => wait c; print eq_bad; close self )\n", "async", True),
+    ("rec_ok", "type A = +{z : 1, s : A}\ntype B = +{z : 1, s : B}\nlet f(x : A) : B = fwd self x\n", "async", True),
+    ("rec_bad", "type A = +{z : 1, s : A}\ntype B = +{z : 1, s : +{z : 1}}\nlet f(x : A) : B = fwd self x\n", "async", True),
+    ("rec_bad2", "type A = +{z : 1, s : B}\ntype B = +{s : A}\nlet f(x : A) : B = fwd self x\n", "async", True),
+    ("fun_ok", "type T = lin 1\nlet g(x : T) : T = wait x; close self\nprc[p] : T = y : T <- new close self; g(y)\nprc[m] : lin 1 = wait p; print fun_ok; close self\n", "sync", True),
+    ("fun_bad", "type T = lin 1 * 1\nlet g(x : T) : lin 1 = wait x; close self\nprc[p] : lin 1 = y : lin 1 <- new close self; g(y)\n", "sync", True),
+    ("mode_ok", "type T = aff 1\nlet g(x : T) : aff 1 = drop x; close self\n", "async", True),
+    ("mode_bad", "type T = lin 1\nlet g(x : T) : lin 1 = drop x; close self\n", "async", True),
     ("ok_same_proc_names", "prc[a] : 1 = print other_a; close self\nprc[m] : 1 = wait a; print other_m; close self\n", "sync", True),
 ]
 
@@ -501,11 +511,15 @@ def c19():
         for k in range(nh):
             L = rng.randint(2, maxlen)
             hists.append([rng.choice(pool) for _ in range(L)])
-        # directed: every ordered pair (a then b)
+        # directed: every ordered pair (a then b); quick: the pairs inside the same-name families and a sample of the rest
+        pairs = [[a, b] for a in pool for b in pool]
         if tier == "thorough":
-            hists += [[a, b] for a in pool for b in pool]
+            hists += pairs + [[a, b, a] for a, b in pairs if a != b][:200]
         else:
-            hists += [[a, b] for a in pool[:6] for b in pool[6:12]][:18]
+            fam = lambda x: x.split("_")[0]
+            hists += [p for p in pairs if fam(p[0]) == fam(p[1]) and p[0] != p[1]] + [[a, b, a] for a, b in pairs if fam(a) == fam(b) and a != b][:30]
+            rng.shuffle(pairs)
+            hists += pairs[:40]
 
         def run_hist(h):
             for attempt in range(3):
